@@ -69,6 +69,10 @@ func runC01(c *core.Ctx) {
 		}()
 		for j := 0; j < 4; j++ {
 			body, class := gen.Content(w.Rng, maxSize)
+			if j == 3 {
+				// every history: one content that begins or ends with a mark (BOM, shebang, magic number, white space)
+				body, class = gen.MagicContent(w.Hist), "magic-prefix"
+			}
 			name := fmt.Sprintf("f%d %s.bin", j, class)
 			trig := "blob|" + class
 			want := gitfmt.BlobID(body)
